@@ -24,7 +24,9 @@ EXPLANATION = (
     'per-model regrouping iterates sorted(model_names) and no set order '
     'reaches the result; R-C03.6 a mutation taken from the '
     'last_change_mutations map and marked removed is deleted from / '
-    'overwritten in that map on every path.')
+    'overwritten in that map on every path, and only ChangeField mutations '
+    'are ever registered there; the model handed to each op handler in '
+    'generate_table_op_sql is a fresh mutator.create_model().')
 NOT_DECIDED = (
     'Equivalence of the optimised run and the one-at-a-time run (signature, '
     'schema, rows) for all sequences: needs execution of both.')
@@ -307,6 +309,35 @@ def r2_resimulated(ctx):
                 ctx.ok(f, 'finish_op receives the dispatched op', c)
             else:
                 ctx.finding(f, c, 'finish_op is not given the dispatched op')
+    # every op's SQL is generated against a model built from the *current*
+    # (re-simulated) signature
+    from ..flow import ReachingDefs
+    rd = ReachingDefs(g, f.params)
+    uses = 0
+    for n in g.nodes:
+        for c in n.calls():
+            if not (is_self_attr(c.func) and any(
+                    isinstance(a, ast.Name) and a.id == 'model'
+                    for a in list(c.args) + [k.value for k in c.keywords])):
+                continue
+            uses += 1
+            defs = rd.reaching(n, 'model')
+            bad = [d for d in defs if not (
+                d.value is not None and isinstance(d.value, ast.Call) and
+                call_name(d.value) == 'create_model')]
+            if defs and not bad:
+                ctx.ok(f, 'the model handed to %s is mutator.create_model() '
+                       '(current signature)' % call_name(c), c)
+            else:
+                ctx.finding(f, c, 'the model handed to %s can be %s instead '
+                            'of a fresh mutator.create_model(): ops merged '
+                            'into a previous result are generated against a '
+                            'model that predates the earlier ops of the '
+                            'group' % (call_name(c), unparse(bad[0].value)
+                                       if bad and bad[0].value is not None
+                                       else 'stale'),
+                            key='stale-model:%s' % call_name(c))
+    ctx.floor('handler calls receiving the model', uses, 4)
     fo = p.func('mutators.model_mutator', 'ModelMutator.finish_op')
     g2 = ctx.cfg(fo)
     rs = [n for n, c in nodes_with_call(g2, 'run_simulation')]
@@ -394,11 +425,11 @@ def r4_regroup_deterministic(ctx):
                     'sorted(model_names)', key='regroup-unsorted')
 
 
-def r6_consumed_entries_invalidated(ctx):
+def r6_consumed_entries_invalidated(ctx, rule_id='R-C03.6'):
     """A mutation taken from a bookkeeping map and marked as removed must not
     stay in that map (a later, unrelated mutation with the same key would be
     merged into a mutation that no longer exists)."""
-    ctx.rule('R-C03.6')
+    ctx.rule(rule_id)
     p = ctx.program
     f = p.func(AM, 'AppMutator._process_mutation_batch')
     g = ctx.cfg(f)
@@ -461,7 +492,41 @@ def r6_consumed_entries_invalidated(ctx):
                                 'from one-at-a-time)' % (mp, key), path=w,
                                 key='stale-entry:%s' % mp)
     ctx.floor('removed mutations taken from last_change_mutations', n_sites,
-              2)
+              1)
+    # only ChangeField mutations may be registered as "absorbable": an
+    # AddField registered there lets a later AddField of the same field be
+    # folded away before its simulation can reject the duplicate
+    regs = [n for n in g.nodes if n.kind == 'stmt' and
+            isinstance(n.ast, ast.Assign) and any(
+                isinstance(t, ast.Subscript) and
+                unparse(t.value) == 'last_change_mutations'
+                for t in n.ast.targets)]
+    for r in regs:
+        tests = [t for t in g.nodes if t.kind == 'test' and
+                 isinstance(t.ast, ast.Call) and
+                 call_name(t.ast) == 'isinstance' and
+                 g.guarded_by(r, t, 'T')]
+        classes = set()
+        for t in tests:
+            k = t.ast.args[1]
+            classes |= {x.id for x in ast.walk(k) if isinstance(x, ast.Name)}
+        # innermost isinstance test decides
+        inner = None
+        for t in tests:
+            k = {x.id for x in ast.walk(t.ast.args[1])
+                 if isinstance(x, ast.Name)}
+            if inner is None or len(k) <= len(inner):
+                inner = k
+        if inner == {'ChangeField'}:
+            ctx.ok(f, 'only ChangeField mutations are registered in '
+                   'last_change_mutations', r.ast)
+        else:
+            ctx.finding(f, r.ast, 'a mutation of type %s can be registered '
+                        'in last_change_mutations: a later mutation of the '
+                        'same field is then merged into it and removed '
+                        '(e.g. a duplicate AddField disappears instead of '
+                        'being rejected)' % sorted(inner or ['<any>']),
+                        key='registers-non-changefield')
 
 
 def run(ctx):
